@@ -32,7 +32,7 @@ func (w *world) doBatch(op opT) string {
 	pairs := map[[2]int]bool{}
 	for i, s := range op.sub {
 		subs[i] = &subRes{op: s}
-		if s.kind != opDisconnect && !w.ensure(w.cl[s.a]) {
+		if s.kind != opDisconnect && !w.prep(w.cl[s.a]) {
 			subs[i].skip = true
 		}
 		if s.kind == opConnect {
@@ -51,7 +51,7 @@ func (w *world) doBatch(op opT) string {
 		inboxBefore[cl.idx] = len(cl.inbox)
 	}
 	for _, sr := range subs {
-		sr.ips = w.ipsSeen(w.cl[sr.op.a])
+		sr.ips = w.ipsFor(w.cl[sr.op.a])
 	}
 	ndone, want := 0, 0
 	for i, sr := range subs {
